@@ -8,10 +8,12 @@ package core
 // no-op) and the generators of quota objects / pod objects. See /verif/DESIGN.md section 4, C01.
 //
 // Domain (causal rules; every generated history obeys them, they are what the real system can
-// produce with all elastic-quota feature gates at their defaults):
+// produce; feature gates at their defaults except where a case switches one on, see c01NewEnv):
 //
-//   - all groups (also the system and default group) declare ONE fixed set of resource dimensions in
-//     Max (the property's quantifier); Min keys are a subset of Max keys, Min <= Max per key, a parent
+//   - all user groups declare ONE fixed set of resource dimensions in Max (the property's
+//     quantifier; 1-5 dimensions per case); the system and default group declare the same set or,
+//     as with the plugin's default args, only its cpu/memory part (every group's figures are masked
+//     to the dimensions that group declares); Min keys are a subset of Max keys, Min <= Max per key, a parent
 //     group carries all keys in Min (a child's Min keys must be included in its parent's);
 //     the "sum of children's min <= parent's min" rule of the webhook is NOT imposed: it can be
 //     switched off per object (label allow-force-update) and the accounting does not read it;
@@ -20,8 +22,8 @@ package core
 //     turned into a leaf and is not deleted (webhook, C15). Deleting a leaf that still holds pods IS
 //     generated (the scheduler does not forbid it; pods bound through a namespace are not seen by
 //     the webhook): the model then drops those pods from every aggregate;
-//   - pods are attached to non-parent groups only (SupportParentQuotaSubmitPod is off by default)
-//     or to the system / default group; the non-preemptible label of a pod never changes;
+//   - pods are attached to non-parent groups only (SupportParentQuotaSubmitPod is off by default; on
+//     in 9% of the cases: parent groups hold pods too) or to the system / default group; the non-preemptible label of a pod never changes;
 //   - informer discipline: the "old" object of an update/delete event and the object of a
 //     reserve/unreserve call is the version delivered last; the old quota name of an update is the
 //     group the manager holds the pod in; spec.nodeName is set once and never changes;
@@ -65,6 +67,8 @@ package core
 //
 //   - C01/same-pod/reserve-or-unreserve-after-resize-books-scheduler-copy and
 //     C01/same-pod/unreserve-after-bind-echo-unassigns-bound-pod: see c01_samepod_test.go.
+//
+//   - C01/request/root-after-rebuild-counts-unlimited-default-group-request: see c01SigRootReset.
 //
 // (The first two were fixed in /repo by 69e1989 and 6b1d919; the classification stays, it costs
 // nothing on a tree where they do not fire.)
@@ -128,15 +132,15 @@ func c01PinGates() func() {
 // amounts
 
 const (
-	c01MaxDims    = 3
+	c01MaxDims    = 5
 	c01Ext        = v1.ResourceName("example.com/ext")        // declared in part of the cases
 	c01Undeclared = v1.ResourceName("example.com/undeclared") // never declared by any group
 	c01Ghost      = "ghost-never-exists"
 	c01NS         = "ns"
-	c01Huge       = int64(1) << 50
+	c01Huge       = int64(1) << 55 // above every sum the generators can reach (28 pods x 2^50)
 )
 
-var c01DimNames = [c01MaxDims]v1.ResourceName{v1.ResourceCPU, v1.ResourceMemory, c01Ext}
+var c01DimNames = [c01MaxDims]v1.ResourceName{v1.ResourceCPU, v1.ResourceMemory, c01Ext, "nvidia.com/gpu", v1.ResourceEphemeralStorage}
 
 // c01Vec: cpu in milli-cores, memory in bytes, ext in units.
 type c01Vec [c01MaxDims]int64
@@ -160,17 +164,17 @@ func c01Q(dim int, v int64) resource.Quantity {
 	return *resource.NewQuantity(v, resource.DecimalSI)
 }
 
-func c01List(v c01Vec, nd int) v1.ResourceList {
+func c01List(v c01Vec, dims []int) v1.ResourceList {
 	rl := v1.ResourceList{}
-	for d := 0; d < nd; d++ {
+	for _, d := range dims {
 		rl[c01DimNames[d]] = c01Q(d, v[d])
 	}
 	return rl
 }
 
-func c01VecStr(v c01Vec, nd int) string {
-	s := make([]string, 0, nd)
-	for d := 0; d < nd; d++ {
+func c01VecStr(v c01Vec, dims []int) string {
+	s := make([]string, 0, len(dims))
+	for _, d := range dims {
 		s = append(s, fmt.Sprint(v[d]))
 	}
 	return "[" + strings.Join(s, " ") + "]"
@@ -181,18 +185,36 @@ var (
 		{0, 1, 500, 999, 1000, 1001, 2000, 4000, 10000, 15000, 30000, 100000},
 		{0, 1, 1 << 10, 1 << 20, 1<<30 + 1, 3 << 30, 1 << 40},
 		{0, 1, 2, 5, 8},
+		{0, 1, 2, 4, 8},
+		{0, 1, 1 << 20, 10 << 30},
+	}
+	// rare magnitudes (6% per dimension): 64-bit scale, powers of two +-1
+	c01ReqRare = [c01MaxDims][]int64{
+		{1<<40 + 1, 1 << 31, 1},
+		{1<<50 + 1, 1<<32 - 1, 1 << 50},
+		{1 << 31, 1000000},
+		{1 << 20, 64},
+		{1<<50 - 1, 1 << 40},
 	}
 	c01MaxPool = [c01MaxDims][]int64{
 		{0, 1000, 2000, 5000, 10000, 20000, 50000, 1000000, c01Huge},
 		{0, 1 << 20, 1 << 30, 4 << 30, 1 << 41, c01Huge},
 		{0, 1, 4, 16, c01Huge},
+		{0, 1, 8, c01Huge},
+		{0, 1 << 20, 100 << 30, c01Huge},
 	}
 )
 
 func c01GenReq(r *kit.Rand) c01Vec {
 	var v c01Vec
+	if r.Pct(4) {
+		return v // a pod that requests nothing
+	}
 	for d := range v {
 		v[d] = kit.Pick(r, c01ReqPool[d])
+		if r.Pct(6) {
+			v[d] = kit.Pick(r, c01ReqRare[d])
+		}
 	}
 	return v
 }
@@ -213,6 +235,7 @@ type c01Group struct {
 }
 
 type c01Pod struct {
+	m      *c01Model
 	slot   int
 	inc    int // incarnation (new UID on every re-creation)
 	cur    *v1.Pod
@@ -240,12 +263,36 @@ type c01Pod struct {
 // still counts in request, on the incremental and on the from-scratch path alike).
 func (p *c01Pod) asg() bool { return p.inMgr && (p.reserved || p.node != "") && !p.term }
 
-func (p *c01Pod) key() string { return c01NS + "/" + fmt.Sprintf("p%d", p.slot) }
+func (p *c01Pod) ns() string {
+	if p.slot%3 == 2 {
+		return "ns-b" // the pod cache is keyed by namespace/name
+	}
+	return c01NS
+}
+
+func (p *c01Pod) key() string { return p.ns() + "/" + fmt.Sprintf("p%d", p.slot) }
+
+// ignored: with ElasticQuotaImmediateIgnoreTerminatingPod on, a pod that carries a deletion
+// timestamp is not counted at all (OnPodAdd skips it, OnPodUpdate removes it).
+func (p *c01Pod) ignored() bool {
+	return p.m.ignoreTerminating && p.cur != nil && p.cur.DeletionTimestamp != nil
+}
 
 type c01Model struct {
-	nd     int
-	groups map[string]*c01Group
-	pods   []*c01Pod
+	dims    []int // the dimensions every user group declares in Max (indices into c01DimNames)
+	sysDims []int // the dimensions the system and default group declare (the plugin's default args name cpu and memory only)
+	// manager configuration
+	noSysDefault bool // manager of a non-default quota tree (treeID != ""): no system / default group
+	defMaxSet    bool // DefaultQuotaGroupMax configured to a binding value
+	defMax       c01Vec
+	// process-wide feature gates set for the case
+	guarantee         bool // ElasticQuotaGuaranteeUsage: no group lends
+	ignoreOverhead    bool // ElasticQuotaIgnorePodOverhead
+	ignoreTerminating bool // ElasticQuotaImmediateIgnoreTerminatingPod
+	// webhook configuration the histories follow
+	parentPods bool // SupportParentQuotaSubmitPod: pods may be attached to parent groups
+	groups     map[string]*c01Group
+	pods       []*c01Pod
 }
 
 func (m *c01Model) groupNames() []string {
@@ -367,7 +414,10 @@ type c01Agg struct {
 }
 
 func (m *c01Model) compute() map[string]*c01Agg {
-	agg := map[string]*c01Agg{extension.RootQuotaName: {}, extension.SystemQuotaName: {}, extension.DefaultQuotaName: {}}
+	agg := map[string]*c01Agg{extension.RootQuotaName: {}}
+	if !m.noSysDefault {
+		agg[extension.SystemQuotaName], agg[extension.DefaultQuotaName] = &c01Agg{}, &c01Agg{}
+	}
 	for n := range m.groups {
 		agg[n] = &c01Agg{}
 	}
@@ -380,7 +430,7 @@ func (m *c01Model) compute() map[string]*c01Agg {
 			panic(fmt.Sprintf("c01 model: pod %s is in unknown group %q", p.key(), p.group))
 		}
 		var masked c01Vec
-		for d := 0; d < m.nd; d++ { // "requests of the pods in that group": only the declared dimensions
+		for _, d := range m.dimsOf(p.group) { // "requests of the pods in that group": only the dimensions the group declares
 			masked[d] = p.req[d]
 		}
 		a.selfReq = a.selfReq.add(masked)
@@ -399,7 +449,7 @@ func (m *c01Model) compute() map[string]*c01Agg {
 		a := agg[n]
 		a.used, a.npUsed, a.npReq, a.childReq = a.selfUsed, a.selfNPUsed, a.selfNPReq, a.selfReq
 		kids := m.children(n)
-		if n == extension.RootQuotaName {
+		if n == extension.RootQuotaName && !m.noSysDefault {
 			kids = append(kids, extension.SystemQuotaName, extension.DefaultQuotaName)
 		}
 		for _, c := range kids {
@@ -410,17 +460,23 @@ func (m *c01Model) compute() map[string]*c01Agg {
 			a.npReq = a.npReq.add(ca.npReq)
 			lim := ca.req
 			if cg := m.groups[c]; cg != nil {
-				for d := 0; d < m.nd; d++ {
+				for _, d := range m.dims {
 					if lim[d] > cg.max[d] {
 						lim[d] = cg.max[d]
+					}
+				}
+			} else if c == extension.DefaultQuotaName && m.defMaxSet {
+				for _, d := range m.sysDims {
+					if lim[d] > m.defMax[d] {
+						lim[d] = m.defMax[d]
 					}
 				}
 			}
 			a.childReq = a.childReq.add(lim)
 		}
 		a.req = a.childReq
-		if g := m.groups[n]; g != nil && !g.lent && g.minSet {
-			for d := 0; d < m.nd; d++ {
+		if g := m.groups[n]; g != nil && !m.lends(g) && g.minSet {
+			for _, d := range m.dims {
 				if g.min[d] > a.req[d] {
 					a.req[d] = g.min[d]
 				}
@@ -431,6 +487,16 @@ func (m *c01Model) compute() map[string]*c01Agg {
 	return agg
 }
 
+// lends: the group's allow-lent setting as the manager reads it (the guarantee gate forces false).
+func (m *c01Model) lends(g *c01Group) bool { return g.lent && !m.guarantee }
+
+func (m *c01Model) dimsOf(group string) []int {
+	if group == extension.SystemQuotaName || group == extension.DefaultQuotaName {
+		return m.sysDims
+	}
+	return m.dims
+}
+
 // limited reports whether the group's request exceeds its max in some dimension, i.e. whether its
 // parent is credited less than the group's request.
 func (m *c01Model) limited(agg map[string]*c01Agg, name string) bool {
@@ -438,7 +504,7 @@ func (m *c01Model) limited(agg map[string]*c01Agg, name string) bool {
 	if g == nil || a == nil {
 		return false
 	}
-	for d := 0; d < m.nd; d++ {
+	for _, d := range m.dims {
 		if a.req[d] > g.max[d] {
 			return true
 		}
@@ -449,15 +515,15 @@ func (m *c01Model) limited(agg map[string]*c01Agg, name string) bool {
 // ---------------------------------------------------------------------------------------------
 // object construction
 
-func (g *c01Group) object(nd int) *v1alpha1.ElasticQuota {
+func (g *c01Group) object(dims []int) *v1alpha1.ElasticQuota {
 	g.rv++
 	q := &v1alpha1.ElasticQuota{
 		ObjectMeta: metav1.ObjectMeta{Name: g.name, Namespace: c01NS, ResourceVersion: fmt.Sprint(g.rv),
 			Labels: map[string]string{}, Annotations: map[string]string{}},
-		Spec: v1alpha1.ElasticQuotaSpec{Max: c01List(g.max, nd)},
+		Spec: v1alpha1.ElasticQuotaSpec{Max: c01List(g.max, dims)},
 	}
 	if g.minSet {
-		q.Spec.Min = c01List(g.min, nd)
+		q.Spec.Min = c01List(g.min, dims)
 	}
 	if g.parent != extension.RootQuotaName || g.rootLabel {
 		q.Labels[extension.LabelQuotaParent] = g.parent
@@ -474,9 +540,9 @@ func (g *c01Group) object(nd int) *v1alpha1.ElasticQuota {
 	}
 	q.Labels[extension.LabelAllowForceUpdate] = "true"
 	if g.weight > 0 {
-		parts := []string{fmt.Sprintf("%q:%d", "cpu", g.weight), fmt.Sprintf("%q:%d", "memory", g.weight*7)}
-		if nd > 2 {
-			parts = append(parts, fmt.Sprintf("%q:%d", string(c01Ext), g.weight))
+		var parts []string
+		for _, d := range dims {
+			parts = append(parts, fmt.Sprintf("%q:%d", string(c01DimNames[d]), g.weight*(d+1)))
 		}
 		q.Annotations[extension.AnnotationSharedWeight] = "{" + strings.Join(parts, ",") + "}"
 	}
@@ -488,8 +554,8 @@ func (g *c01Group) String() string {
 }
 
 // genLimits draws max (biased to values that bind) and min <= max.
-func c01GenLimits(r *kit.Rand, g *c01Group, nd int) {
-	for d := 0; d < nd; d++ {
+func c01GenLimits(r *kit.Rand, g *c01Group, dims []int) {
+	for _, d := range dims {
 		g.max[d] = kit.Pick(r, c01MaxPool[d])
 		switch r.Intn(4) {
 		case 0:
@@ -513,7 +579,7 @@ func c01GenLimits(r *kit.Rand, g *c01Group, nd int) {
 // informer delivers).
 func (p *c01Pod) build(r *kit.Rand, label string, deleting bool) {
 	p.rv++
-	pod := &v1.Pod{ObjectMeta: metav1.ObjectMeta{Namespace: c01NS, Name: fmt.Sprintf("p%d", p.slot),
+	pod := &v1.Pod{ObjectMeta: metav1.ObjectMeta{Namespace: p.ns(), Name: fmt.Sprintf("p%d", p.slot),
 		UID: types.UID(fmt.Sprintf("p%d-%d", p.slot, p.inc)), ResourceVersion: fmt.Sprint(p.rv), Labels: map[string]string{}}}
 	if label != "" {
 		pod.Labels[extension.LabelQuotaName] = label
@@ -523,14 +589,36 @@ func (p *c01Pod) build(r *kit.Rand, label string, deleting bool) {
 	} else if p.slot%2 == 0 {
 		pod.Labels[extension.LabelPreemptible] = "true"
 	}
-	// the request vector is split over one or two containers
+	// p.req is what PodRequests has to yield: max(sum of the containers, largest init container) +
+	// overhead (overhead left out when ElasticQuotaIgnorePodOverhead is on). Shapes: the vector split
+	// over one or two containers (usual); an init container that carries it while the containers sum
+	// to less; part of it as pod overhead.
+	shape := r.Weighted(76, 12, 12)
+	contReq := p.req
+	var overhead c01Vec
+	if shape == 2 {
+		for d := range overhead {
+			overhead[d] = kit.Pick(r, []int64{0, 1, 100})
+			if !p.m.ignoreOverhead {
+				if overhead[d] > p.req[d] {
+					overhead[d] = p.req[d]
+				}
+				contReq[d] = p.req[d] - overhead[d]
+			}
+		}
+	}
+	if shape == 1 {
+		for d := range contReq {
+			contReq[d] = p.req[d] / 2
+		}
+	}
 	nc := 1 + r.Intn(2)
 	conts := make([]v1.Container, nc)
 	for i := range conts {
 		conts[i] = v1.Container{Name: fmt.Sprintf("c%d", i), Resources: v1.ResourceRequirements{Requests: v1.ResourceList{}}}
 	}
 	for d := 0; d < c01MaxDims; d++ {
-		v := p.req[d]
+		v := contReq[d]
 		if v == 0 && !r.Pct(30) {
 			continue
 		}
@@ -549,6 +637,23 @@ func (p *c01Pod) build(r *kit.Rand, label string, deleting bool) {
 		conts[0].Resources.Requests[c01Undeclared] = *resource.NewQuantity(p.undecl, resource.DecimalSI)
 	}
 	pod.Spec.Containers = conts
+	if shape == 1 {
+		ic := v1.Container{Name: "init", Resources: v1.ResourceRequirements{Requests: v1.ResourceList{}}}
+		for d := 0; d < c01MaxDims; d++ {
+			if p.req[d] > 0 {
+				ic.Resources.Requests[c01DimNames[d]] = c01Q(d, p.req[d])
+			}
+		}
+		pod.Spec.InitContainers = []v1.Container{ic}
+	}
+	if shape == 2 {
+		pod.Spec.Overhead = v1.ResourceList{}
+		for d := 0; d < c01MaxDims; d++ {
+			if overhead[d] > 0 {
+				pod.Spec.Overhead[c01DimNames[d]] = c01Q(d, overhead[d])
+			}
+		}
+	}
 	pod.Spec.NodeName = p.node
 	switch {
 	case p.term:
@@ -577,17 +682,20 @@ func (p *c01Pod) String() string {
 // environment: a real manager plus the model
 
 type c01Env struct {
-	c        *kit.Case
-	m        *c01Model
-	gqm      *GroupQuotaManager
-	scaleMin bool
-	nodes    map[string]*v1.Node
-	nextName int
-	deleted  []string // names of deleted groups (may be re-created)
+	c         *kit.Case
+	m         *c01Model
+	gqm       *GroupQuotaManager
+	scaleMin  bool
+	maxGroups int
+	maxDepth  int // deepest level a group may sit at (children of root are at 1)
+	nodes     map[string]*v1.Node
+	nextName  int
+	deleted   []string // names of deleted groups (may be re-created)
 	// failf reports a violation found while issuing an operation: c.Fail on the case's main
 	// goroutine, c.Report on any other goroutine (a panic could not be caught there).
-	failf    func(sig, format string, a ...any)
-	needHeal bool
+	failf        func(sig, format string, a ...any)
+	needHeal     bool
+	restoreGates func()
 }
 
 func (e *c01Env) newManager() *GroupQuotaManager {
@@ -595,22 +703,129 @@ func (e *c01Env) newManager() *GroupQuotaManager {
 	for d := range huge {
 		huge[d] = c01Huge
 	}
-	return NewGroupQuotaManager("", e.scaleMin, c01List(huge, e.m.nd), c01List(huge, e.m.nd))
+	def := huge
+	if e.m.defMaxSet {
+		def = e.m.defMax
+	}
+	treeID := ""
+	if e.m.noSysDefault {
+		treeID = "tree-1"
+	}
+	return NewGroupQuotaManager(treeID, e.scaleMin, c01List(huge, e.m.sysDims), c01List(def, e.m.sysDims))
+}
+
+// special returns the system and default group (none for the manager of a non-default tree).
+func (e *c01Env) special() []string {
+	if e.m.noSysDefault {
+		return nil
+	}
+	return []string{extension.DefaultQuotaName, extension.SystemQuotaName}
+}
+
+// dests: the groups pods may be attached to now.
+func (e *c01Env) dests() []string {
+	out := e.m.leaves()
+	if e.m.parentPods {
+		for _, n := range e.m.groupNames() {
+			if e.m.groups[n].isParent {
+				out = append(out, n)
+			}
+		}
+	}
+	return append(out, e.special()...)
+}
+
+// setGates switches the process-wide feature gates the case asked for and returns the restore function.
+func (e *c01Env) setGates() func() {
+	mg := k8sfeature.DefaultMutableFeatureGate
+	set := map[featuregate.Feature]bool{features.ElasticQuotaGuaranteeUsage: e.m.guarantee,
+		features.ElasticQuotaIgnorePodOverhead: e.m.ignoreOverhead, features.ElasticQuotaImmediateIgnoreTerminatingPod: e.m.ignoreTerminating}
+	for g, v := range set {
+		_ = mg.Set(fmt.Sprintf("%s=%v", g, v))
+	}
+	return func() {
+		for g := range set {
+			_ = mg.Set(fmt.Sprintf("%s=false", g))
+		}
+	}
 }
 
 // c01NewEnv creates the manager and an initial tree of 3-7 groups, depth <= 3, through UpdateQuota.
 func c01NewEnv(c *kit.Case, npods int) *c01Env {
 	r := c.R
-	e := &c01Env{c: c, m: &c01Model{nd: 2, groups: map[string]*c01Group{}}, nodes: map[string]*v1.Node{}}
+	e := &c01Env{c: c, m: &c01Model{groups: map[string]*c01Group{}}, nodes: map[string]*v1.Node{}}
 	e.failf = c.Fail
-	if r.Pct(50) {
-		e.m.nd = 3
+	m := e.m
+	// one fixed set of declared dimensions per case: cpu+memory, cpu+memory+extended, or any
+	// non-empty subset of five (single dimension, no cpu, all five)
+	switch r.Weighted(35, 30, 35) {
+	case 0:
+		m.dims = []int{0, 1}
+	case 1:
+		m.dims = []int{0, 1, 2}
+	default:
+		for len(m.dims) == 0 {
+			for d := 0; d < c01MaxDims; d++ {
+				if r.Pct(50) {
+					m.dims = append(m.dims, d)
+				}
+			}
+		}
 	}
+	m.sysDims = m.dims
+	if r.Pct(12) {
+		// the plugin's default SystemQuotaGroupMax / DefaultQuotaGroupMax name cpu and memory only
+		var sd []int
+		for _, d := range m.dims {
+			if d < 2 {
+				sd = append(sd, d)
+			}
+		}
+		if len(sd) > 0 {
+			m.sysDims = sd
+		}
+	}
+	m.noSysDefault = r.Pct(8)
+	if !m.noSysDefault && r.Pct(12) {
+		m.defMaxSet = true
+		for _, d := range m.sysDims {
+			m.defMax[d] = kit.Pick(r, c01MaxPool[d][:len(c01MaxPool[d])-1])
+		}
+	}
+	m.guarantee, m.ignoreOverhead, m.ignoreTerminating, m.parentPods = r.Pct(7), r.Pct(8), r.Pct(6), r.Pct(9)
 	e.scaleMin = r.Pct(50)
+	e.maxDepth = kit.Pick(r, []int{3, 3, 3, 3, 3, 3, 3, 5, 5, 1})
+	e.restoreGates = e.setGates() // before the first quota object is read (NewQuotaInfoFromQuota consults the guarantee gate)
 	e.gqm = e.newManager()
-	c.Op("new manager: dims=%d scaleMin=%v", e.m.nd, e.scaleMin)
+	c.Op("new manager: dims=%v sysDims=%v scaleMin=%v maxDepth=%d nonDefaultTree=%v defaultMax=%v(set=%v) gates{guarantee=%v ignoreOverhead=%v ignoreTerminating=%v} parentPods=%v",
+		m.dims, m.sysDims, e.scaleMin, e.maxDepth, m.noSysDefault, m.defMax, m.defMaxSet, m.guarantee, m.ignoreOverhead, m.ignoreTerminating, m.parentPods)
+	c.Seen("config", len(m.dims), m.dims[0], len(m.sysDims) != len(m.dims), m.noSysDefault, m.defMaxSet, m.guarantee, m.ignoreOverhead, m.ignoreTerminating, m.parentPods, e.maxDepth)
+	flags := []struct {
+		name string
+		on   bool
+	}{{"non_default_tree", m.noSysDefault}, {"default_max_binding", m.defMaxSet}, {"gate_guarantee", m.guarantee}, {"gate_ignore_overhead", m.ignoreOverhead},
+		{"gate_ignore_terminating", m.ignoreTerminating}, {"parent_pods", m.parentPods}, {"sys_dims_differ", len(m.sysDims) != len(m.dims)}, {"no_cpu_dimension", m.dims[0] != 0},
+		{"one_dimension", len(m.dims) == 1}, {"four_or_five_dimensions", len(m.dims) >= 4}, {"deep_tree", e.maxDepth == 5}, {"flat_tree", e.maxDepth == 1}}
+	for _, f := range flags {
+		if f.on {
+			c.Count("cases_"+f.name, 1)
+		}
+	}
 	ngroups := r.Range(3, 7)
+	switch r.Weighted(76, 18, 6) {
+	case 1:
+		ngroups = r.Range(8, 14) // wide / deep trees
+	case 2:
+		ngroups = r.Range(1, 2)
+	}
+	e.maxGroups = ngroups + 2
+	if e.maxGroups < 7 {
+		e.maxGroups = 7
+	}
 	nparents := r.Range(1, 3)
+	if ngroups >= 8 {
+		nparents = r.Range(1, ngroups/2)
+	}
 	if nparents > ngroups-2 {
 		nparents = ngroups - 2
 	}
@@ -620,11 +835,11 @@ func c01NewEnv(c *kit.Case, npods int) *c01Env {
 		if r.Pct(40) {
 			g.weight = r.Range(1, 9)
 		}
-		c01GenLimits(r, g, e.m.nd)
+		c01GenLimits(r, g, e.m.dims)
 		e.applyQuota(g, "create")
 	}
 	for i := 0; i < npods; i++ {
-		e.m.pods = append(e.m.pods, &c01Pod{slot: i})
+		e.m.pods = append(e.m.pods, &c01Pod{slot: i, m: e.m})
 	}
 	for i, n := 0, r.Range(0, 2); i < n; i++ {
 		e.nodeOp(r)
@@ -644,7 +859,7 @@ func (e *c01Env) pickParent(r *kit.Rand, g *c01Group, h int) string {
 	cands := []string{extension.RootQuotaName}
 	for _, n := range e.m.groupNames() {
 		pg := e.m.groups[n]
-		if pg.isParent && n != g.name && !e.m.inSubtree(n, g.name) && e.m.depth(n)+1+h <= 3 {
+		if pg.isParent && n != g.name && !e.m.inSubtree(n, g.name) && e.m.depth(n)+1+h <= e.maxDepth {
 			cands = append(cands, n, n) // prefer inner parents
 		}
 	}
@@ -653,7 +868,7 @@ func (e *c01Env) pickParent(r *kit.Rand, g *c01Group, h int) string {
 
 // applyQuota issues UpdateQuota with the group's current model fields and registers the group.
 func (e *c01Env) applyQuota(g *c01Group, what string) {
-	obj := g.object(e.m.nd)
+	obj := g.object(e.m.dims)
 	e.m.groups[g.name] = g
 	err := e.gqm.UpdateQuota(obj)
 	e.c.Op("UpdateQuota(%s) %s -> err=%v", what, g, err)
@@ -672,6 +887,19 @@ func (e *c01Env) nodeOp(r *kit.Rand) {
 	alloc[v1.ResourcePods] = *resource.NewQuantity(110, resource.DecimalSI)
 	nn := &v1.Node{ObjectMeta: metav1.ObjectMeta{Name: name}, Status: v1.NodeStatus{Allocatable: alloc}}
 	old := e.nodes[name]
+	if old == nil && r.Pct(25) {
+		// events about a node the manager has not seen
+		if r.Bool() {
+			e.gqm.OnNodeUpdate(nn, nn) // treated as an add
+			e.nodes[name] = nn
+			e.c.Op("OnNodeUpdate(%s) [unknown node]", name)
+		} else {
+			e.gqm.OnNodeDelete(nn)
+			e.c.Op("OnNodeDelete(%s) [unknown node]", name)
+		}
+		e.c.Count("op_node_unknown", 1)
+		return
+	}
 	switch {
 	case old == nil || r.Pct(20):
 		e.gqm.OnNodeAdd(nn)
@@ -741,14 +969,14 @@ type c01PodAt struct {
 	req   c01Vec
 }
 
-func (d *c01Detach) possiblyLimited(nd int, recs []c01PodAt) bool {
+func (d *c01Detach) possiblyLimited(dims []int, recs []c01PodAt) bool {
 	perSlot := map[int]c01Vec{}
 	for _, r := range recs {
 		if !d.subtree[r.group] {
 			continue
 		}
 		v := perSlot[r.slot]
-		for i := 0; i < nd; i++ {
+		for _, i := range dims {
 			if r.req[i] > v[i] {
 				v[i] = r.req[i]
 			}
@@ -759,7 +987,7 @@ func (d *c01Detach) possiblyLimited(nd int, recs []c01PodAt) bool {
 	for _, v := range perSlot {
 		bound = bound.add(v)
 	}
-	for i := 0; i < nd; i++ {
+	for _, i := range dims {
 		if bound[i] > d.maxAtOp[i] {
 			return true
 		}
@@ -778,9 +1006,30 @@ type c01Ctx struct {
 	tainted      map[string]bool // concurrent unit: groups the deficit of a detach may have reached by the end of the round
 	schedCopy    map[string]bool // same-pod stream: groups (and ancestors) of a Reserve/Unreserve that raced with a resize of the pod
 	schedAll     bool
+	resetLoose   bool // concurrent unit: whether the default group was max-limited at the instant of the rebuild is not known
+	resetOp      bool // the full rebuild (resetQuotaNoLock) ran: ResetQuota, or an allow-lent / is-parent change
 }
 
 const c01SigStaleMigrate = "C01/migrate/pod-updated-since-cached"
+
+// The rebuild (resetRootQuotaUsedAndRequest) restarts the root group's request from the UN-limited
+// requests of the system and default group, the incremental path credits the root with their
+// max-limited requests: with a DefaultQuotaGroupMax that binds, ResetQuota changes root.request.
+const c01SigRootReset = "C01/request/root-after-rebuild-counts-unlimited-default-group-request"
+
+// defaultLimited: the default group's request exceeds its (configured, binding) max.
+func (m *c01Model) defaultLimited(agg map[string]*c01Agg) bool {
+	a := agg[extension.DefaultQuotaName]
+	if !m.defMaxSet || a == nil {
+		return false
+	}
+	for _, d := range m.sysDims {
+		if a.req[d] > m.defMax[d] {
+			return true
+		}
+	}
+	return false
+}
 
 // classify attributes one mismatch (reported != recomputed) to the facts in ctx. detach: the
 // known re-parent/delete defect can only make an old ancestor's request/child-request too SMALL;
@@ -835,7 +1084,7 @@ func (e *c01Env) check(ctx *c01Ctx) {
 	}
 	// mismatches explained by a fact in ctx are collected; an unexplained one fails at once and a
 	// mismatch explained only by the stale-migrate fact wins over one explained by the detach fact
-	staleMsg, detachMsg, schedMsg := "", "", ""
+	staleMsg, detachMsg, schedMsg, rootResetMsg := "", "", "", ""
 	for _, n := range names {
 		s := sums[n]
 		if s == nil {
@@ -854,7 +1103,7 @@ func (e *c01Env) check(ctx *c01Ctx) {
 				continue
 			}
 			got, want := f.get(s), f.exp(a)
-			for d := 0; d < m.nd; d++ {
+			for _, d := range m.dims {
 				q := got[c01DimNames[d]] // absent == 0
 				if q.Sign() < 0 {
 					c.Fail("C01/"+f.name+"/negative", "%s: group %s %s[%s] = %s is negative", where, n, f.name, c01DimNames[d], q.String())
@@ -862,8 +1111,14 @@ func (e *c01Env) check(ctx *c01Ctx) {
 				w := c01Q(d, want[d])
 				if cmp := q.Cmp(w); cmp != 0 {
 					msg := fmt.Sprintf("%s: group %s %s[%s] = %s, recomputed from the surviving pods and quotas: %s\n  reported %s: %s\n  expected %s: %s",
-						where, n, f.name, c01DimNames[d], q.String(), w.String(), f.name, c01RL(got), f.name, c01VecStr(want, m.nd))
+						where, n, f.name, c01DimNames[d], q.String(), w.String(), f.name, c01RL(got), f.name, c01VecStr(want, m.dims))
 					det, stale, sched := e.classify(ctx, n, f.name, cmp < 0)
+					if ctx != nil && ctx.resetOp && isRoot && f.name == "request" && cmp > 0 && m.defMaxSet && (ctx.resetLoose || m.defaultLimited(agg)) {
+						if rootResetMsg == "" {
+							rootResetMsg = msg
+						}
+						continue
+					}
 					switch {
 					case !det && !stale && !sched:
 						c.Fail("C01/"+f.name+"/mismatch", "%s", msg)
@@ -884,7 +1139,7 @@ func (e *c01Env) check(ctx *c01Ctx) {
 			}
 			for name, q := range got {
 				declared := false
-				for d := 0; d < m.nd; d++ {
+				for _, d := range m.dims {
 					if name == c01DimNames[d] {
 						declared = true
 					}
@@ -913,7 +1168,7 @@ func (e *c01Env) check(ctx *c01Ctx) {
 			}
 			// the per-pod amount shown in the summary is the one of the add event; the statement is about
 			// the group figures, so a stale per-pod amount is only counted
-			for d := 0; d < m.nd; d++ {
+			for _, d := range m.dims {
 				q := pi.Resource[c01DimNames[d]]
 				if w := c01Q(d, p.req[d]); q.Cmp(w) != 0 {
 					c.Count("podcache_resource_stale", 1)
@@ -935,13 +1190,15 @@ func (e *c01Env) check(ctx *c01Ctx) {
 		}
 		// reported spec fields: counted only, the statement is about the figures
 		if g := m.groups[n]; g != nil {
-			if s.ParentName != g.parent || s.IsParent != g.isParent || s.AllowLentResource != g.lent {
+			if s.ParentName != g.parent || s.IsParent != g.isParent || s.AllowLentResource != m.lends(g) {
 				c.Count("spec_field_differs_from_object", 1)
 			}
 		}
 	}
 	c.Count("summary_comparisons", 1)
-	if schedMsg != "" {
+	if rootResetMsg != "" {
+		e.knownDefect(c01SigRootReset, rootResetMsg)
+	} else if schedMsg != "" {
 		e.knownDefect(c01SigSchedCopy, schedMsg)
 	} else if staleMsg != "" {
 		e.knownDefect(c01SigStaleMigrate, staleMsg)
@@ -988,7 +1245,7 @@ func (e *c01Env) buildFresh() *GroupQuotaManager {
 	names := m.groupNames()
 	sort.SliceStable(names, func(i, j int) bool { return m.depth(names[i]) < m.depth(names[j]) })
 	for _, n := range names {
-		if err := fresh.UpdateQuota(m.groups[n].object(m.nd)); err != nil {
+		if err := fresh.UpdateQuota(m.groups[n].object(m.dims)); err != nil {
 			c.Harness("fresh manager refused quota %s: %v", n, err)
 		}
 	}
@@ -1056,6 +1313,10 @@ func (e *c01Env) sameSummaries(kind, where string, a, b map[string]*QuotaInfoSum
 			for k := range keys {
 				qa, qb := la[k], lb[k]
 				if qa.Cmp(qb) != 0 {
+					if kind == "changed-by-reset" && n == extension.RootQuotaName && f.name == "request" && qb.Cmp(qa) > 0 && e.m.defaultLimited(e.m.compute()) {
+						e.knownDefect(c01SigRootReset, fmt.Sprintf("%s: group %s %s[%s]: %s reports %s, %s reports %s", where, n, f.name, k, an, qa.String(), bn, qb.String()))
+						return
+					}
 					c.Fail("C01/"+f.name+"/"+kind, "%s: group %s %s[%s]: %s reports %s, %s reports %s", where, n, f.name, k, an, qa.String(), bn, qb.String())
 				}
 			}
@@ -1087,6 +1348,6 @@ func (e *c01Env) differential(where string) {
 	c.Op("ResetQuota() [differential]")
 	e.sameSummaries("changed-by-reset", where, live, e.summaries(e.gqm), "the manager before ResetQuota", "the manager after ResetQuota")
 	c.Count("reset_noop_checks", 1)
-	e.check(&c01Ctx{where: where + " (after ResetQuota)"})
+	e.check(&c01Ctx{where: where + " (after ResetQuota)", resetOp: true})
 	e.heal(where)
 }
